@@ -184,6 +184,9 @@ def build(spec):
         if len(spec) > 3 and spec[3] is not None:
             kw["adapt"] = spec[3]
         return T.Instance(CLASSES[spec[1]], **kw)
+    if k == "InstanceClone":
+        # a trait derived by calling an existing one with new metadata ("Instance(Foo)(allow_none=False)")
+        return T.Instance(CLASSES[spec[1]], allow_none=spec[2])(allow_none=spec[3])
     if k == "Type":
         return T.Type(CLASSES[spec[1]], allow_none=spec[2])
     if k == "This":
@@ -277,6 +280,8 @@ def ref(spec, v, owner=None):
 
 
 def _ref(spec, v, owner):
+    if spec[0] == "InstanceClone":
+        spec = ["Instance", spec[1], spec[3], None]
     k = spec[0]
     if k.startswith("Base") and k != "BaseRange":
         k = k[4:]
@@ -511,6 +516,8 @@ def eq(a, b):
 
 def in_domain(spec, x, owner=None):
     """Independent predicate on a *stored* value: does it lie in the declared domain? (None = cannot tell)"""
+    if spec[0] == "InstanceClone":
+        spec = ["Instance", spec[1], spec[3], None]
     k = spec[0]
     if k.startswith("Base") and k != "BaseRange":
         k = k[4:]
@@ -612,6 +619,7 @@ def grid():
           ["String", 1, 3, ""], ["String", 0, None, "^a"], ["String", 2, 4, "^[ab]+$"],
           ["List", ["Int"], 0, None], ["List", ["Int"], 1, 2], ["List", ["Float"], 0, None], ["List", ["Str"], 0, 3],
           ["Dict", ["Str"], ["Int"]], ["Dict", ["Int"], ["Float"]], ["Set", ["Int"]], ["Set", ["Str"]], ["None"]]
+    g += [["InstanceClone", "Foo", True, False], ["InstanceClone", "Foo", False, True], ["InstanceClone", "int", True, False]]
     for an in (True, False):
         g += [["Instance", "Foo", an, None], ["Instance", "int", an, None], ["Instance", "Foo", an, "yes"],
               ["Instance", "Foo", an, "default"], ["Type", "Foo", an], ["This", an], ["Callable", an]]
